@@ -7,4 +7,9 @@ require (
 	github.com/spaolacci/murmur3 v1.1.0
 )
 
+require (
+	github.com/fluhus/gostuff v1.0.1 // indirect
+	github.com/klauspost/compress v1.17.9 // indirect
+)
+
 replace github.com/fluhus/biostuff => /repo
